@@ -38,7 +38,7 @@ def _verdict(r):
 
 
 def _validate_chunk(ctx, path):
-    r = vlib.tlc("TraceTimeViews", "TraceTimeViews", ctx.scratch, files={"trace.ndjson": path}, workers=1, timeout=1500)
+    r = vlib.tlc("TraceTimeViews", "TraceTimeViews", ctx.scratch, files={"trace.ndjson": path}, workers=1, timeout=2400)
     return r
 
 
